@@ -154,12 +154,17 @@ Fixpoint conds (e : expr) : list cond :=
   | Ite a b x y => conds a ++ conds b ++ [CNe a b] ++ conds x ++ conds y
   end.
 
+(* singularities (to be excluded by the valid input range) as opposed to thresholds / ties / sector borders *)
+Definition hard (c : cond) : bool := match c with CNe _ _ | CNonInt _ => false | _ => true end.
+
 (* the report Coq computes for one traced objective: gradient terms and the side conditions *)
 Definition report (n : nat) (e : expr) : list expr * list cond := (grad n e, conds e).
 
 (* ---------------------------------------------------------------- exact evaluation of the rational fragment *)
 Definition obind2 (f : Q -> Q -> option Q) (a b : option Q) : option Q :=
   match a, b with Some u, Some v => f u v | _, _ => None end.
+
+Fixpoint Qpow_nat (u : Q) (n : nat) : Q := match n with O => 1%Q | S k => (u * Qpow_nat u k)%Q end.
 
 Fixpoint evalQ (e : expr) (r : nat -> Q) : option Q :=
   match e with
@@ -169,7 +174,7 @@ Fixpoint evalQ (e : expr) (r : nat -> Q) : option Q :=
   | Mul a b => obind2 (fun u v => Some (u * v)%Q) (evalQ a r) (evalQ b r)
   | Div a b => obind2 (fun u v => if Qeq_bool v 0 then None else Some (u / v)%Q) (evalQ a r) (evalQ b r)
   | Neg a => match evalQ a r with Some u => Some (- u)%Q | None => None end
-  | Pow a n => match evalQ a r with Some u => Some (Qpower u (Z.of_nat n)) | None => None end
+  | Pow a n => match evalQ a r with Some u => Some (Qpow_nat u n) | None => None end
   | Ite a b x y => match evalQ a r, evalQ b r with
                    | Some u, Some v => if Qlt_le_dec u v then evalQ x r else evalQ y r
                    | _, _ => None end
